@@ -26,6 +26,7 @@ import (
 	"google.golang.org/protobuf/reflect/protoreflect"
 	"larking.io/larking"
 
+	"verif/internal/backend"
 	"verif/internal/mon"
 	"verif/internal/vschema"
 	"verif/internal/wire"
@@ -166,6 +167,11 @@ type env struct {
 	optMuxes map[string]*larking.Mux
 	// long-lived handler memory (Asset lanes) and its pristine copy
 	asset, assetCopy, reuseBuf []byte
+	// proxied target: a mux that reaches the same recording handler through
+	// RegisterConn and a real gRPC back-end (started on first use)
+	be       *backend.Backend
+	proxyMux *larking.Mux
+	proxyErr error
 
 	mu      sync.Mutex
 	recs    map[string]*rec
@@ -241,9 +247,41 @@ func (e *env) newMux(extra ...larking.MuxOption) (*larking.Mux, error) {
 	return mux, nil
 }
 
+// proxied returns the mux whose only route to the handler is a back-end
+// registered with RegisterConn.
+func (e *env) proxied() (*larking.Mux, error) {
+	e.mu.Lock()
+	defer e.mu.Unlock()
+	if e.proxyMux != nil || e.proxyErr != nil {
+		return e.proxyMux, e.proxyErr
+	}
+	be, err := backend.Start("strm", true, backend.Svc{SD: e.sd, Impl: e})
+	if err != nil {
+		e.proxyErr = err
+		return nil, err
+	}
+	mux, err := larking.NewMux()
+	if err == nil {
+		ctx, cancel := context.WithTimeout(context.Background(), 20*time.Second)
+		err = mux.RegisterConn(ctx, be.CC)
+		cancel()
+	}
+	if err != nil {
+		be.Close()
+		e.proxyErr = err
+		return nil, err
+	}
+	e.be, e.proxyMux = be, mux
+	return mux, nil
+}
+
 func (e *env) close() {
 	e.mu.Lock()
 	defer e.mu.Unlock()
+	if e.be != nil {
+		e.be.Close()
+		e.be = nil
+	}
 	for _, s := range e.servers {
 		s.Close()
 	}
@@ -265,6 +303,18 @@ func (e *env) server(limit, frag int, opt string) (*wire.Server, error) {
 	}
 	mux, ok := e.muxes[limit]
 	if m, isOpt := e.optMuxes[opt]; isOpt {
+		mux, ok = m, true
+	}
+	if opt == "proxied" {
+		e.mu.Unlock()
+		m, err := e.proxied()
+		e.mu.Lock()
+		if err != nil {
+			return nil, err
+		}
+		if s, ok := e.servers[k]; ok {
+			return s, nil
+		}
 		mux, ok = m, true
 	}
 	if !ok {
